@@ -205,7 +205,20 @@ func corr(a map[string]string) {
 			case x < 52:
 				step(g.Mutator())
 			case x < 63:
-				if len(stack) < 6 {
+				if len(stack) < 6 && g.r.Chance(1, 2) {
+					// the same kind of mutator on the same target right before and right after the snapshot,
+					// nothing journaled in between
+					setup, before, after := g.BoundaryPair()
+					for _, l := range setup {
+						if !crashed {
+							step(l)
+						}
+					}
+					if !crashed && step(before) && step("snapshot") && step(after) && g.r.Chance(1, 2) && len(stack) > 0 {
+						step("revert " + stack[len(stack)-1])
+						step("internals")
+					}
+				} else if len(stack) < 6 {
 					step("snapshot")
 				} else {
 					step(g.Mutator())
